@@ -26,7 +26,10 @@ def hMainWrite (j : Json) : R Json := do
   let a : Args := { groupOk := true, stringsOk := ← bool j "strings_ok", name := ← str j "name",
                     n := ← nat j "n", m := ← nat j "m", data := ← parseData (← fld j "data"),
                     pos := ← parseSide (← fld j "pos") s2f, spec := ← parseSide (← fld j "spec") s2f,
-                    posPrefix := ← str j "pos_prefix", specPrefix := ← str j "spec_prefix", s2f := s2f }
+                    posPrefix := ← str j "pos_prefix", specPrefix := ← str j "spec_prefix", s2f := s2f,
+                    storageOk := match j.getObjVal? "storage_ok" with
+                      | .ok (Json.bool b) => b
+                      | _ => true }
   let g : Group := { members := ← strList j "members" }
   let (g', r) := writeMain g a
   return Json.mkObj [("outcome", match r with | .ok _ => Json.str "ok" | .error e => Json.str e.toString),
